@@ -229,3 +229,20 @@ CHECKS["C13"] = dict(
                "the property statement. Coercion of values (C14) and other model kinds (C17) are outside.",
     design_ref="DESIGN.md 3/C13",
 )
+
+CHECKS["C12"] = dict(
+    category="other",
+    technique="ownership / effect analysis of shared-state writes (lock or atomic idempotent publish classification), "
+              "thread-confinement (escape) check of stateful helper classes, two-phase-object equality rule, lock-body "
+              "call rule",
+    text="Decides structural necessary conditions of safe concurrent first use: every write to retort-, provider-, class- "
+         "or module-lifetime state is under a lock or is a single item assignment of a finished local into an insert-only "
+         "per-retort cache (no read-modify-write, no removal, no multi-cache update); classes that change after "
+         "construction are instantiated per request and never escape into shared state (request buses and recursion "
+         "resolvers are built by _create_mediator on every call); an object bound in two phases (the recursion stub) "
+         "compares by identity, so the shared call cache cannot hand an in-flight request's closure to another thread; "
+         "critical sections make no calls. Interleavings are not enumerated.",
+    level_note="Trusted: Python ast; CPython GIL atomicity of one dict operation. The value-equality stub defect was "
+               "confirmed with a deterministic two-thread schedule and repaired (fix commit cf908c9).",
+    design_ref="DESIGN.md 3/C12",
+)
